@@ -945,4 +945,175 @@ theorem call_deliver (cfg : CliCfg) (accept : List Enc) (hA : Agree cfg.accept a
     have := callResult_delivered cfg shape resp neg umdEnc umdAcc k hE
     cases neg <;> simpa [toRecv, Recv.enc] using this
 
+/-! ## G. `offersB` is the declarative `Offers` -/
+
+theorem getLast?_cons_of_some {α} (b : α) (l : List α) (x : α) (h : l.getLast? = some x) :
+    (b :: l).getLast? = some x := by
+  obtain ⟨ys, rfl⟩ := List.getLast?_eq_some_iff.mp h
+  rw [← List.cons_append, List.getLast?_append]; simp
+
+theorem all_takeWhile {α} (p : α → Bool) (l : List α) : ∀ b ∈ l.takeWhile p, p b = true := by
+  induction l with
+  | nil => simp
+  | cons a l ih =>
+    intro b hb
+    rw [List.takeWhile_cons] at hb
+    split at hb
+    · rcases List.mem_cons.mp hb with rfl | hb'
+      · assumption
+      · exact ih b hb'
+    · simp at hb
+
+theorem elements_struct (v : Bytes) :
+    ∃ hd tl, elements v = hd :: tl ∧
+      (∃ post, v = hd ++ post ∧ (post = [] ∨ post.head? = some comma)) ∧
+      (∀ t ∈ tl, ∃ pre post, v = pre ++ t ++ post ∧ pre.getLast? = some comma ∧
+        (post = [] ∨ post.head? = some comma)) := by
+  induction v with
+  | nil => exact ⟨[], [], rfl, ⟨[], rfl, Or.inl rfl⟩, by simp⟩
+  | cons b v ih =>
+    obtain ⟨hd, tl, hel, ⟨post, hv, hpost⟩, htl⟩ := ih
+    rw [elements_cons, hel]
+    by_cases hb : (b == comma) = true
+    · have hbc : b = comma := by simpa using hb
+      simp only [hb, if_true]
+      refine ⟨[], hd :: tl, rfl, ⟨b :: v, rfl, Or.inr (by simp [hbc])⟩, ?_⟩
+      intro t ht
+      rcases List.mem_cons.mp ht with rfl | ht'
+      · exact ⟨[b], post, by simp [hv], by simp [hbc], hpost⟩
+      · obtain ⟨pre, post', hv', hpre, hpost'⟩ := htl t ht'
+        exact ⟨b :: pre, post', by simp [hv'], getLast?_cons_of_some _ _ _ hpre, hpost'⟩
+    · simp only [hb]
+      refine ⟨b :: hd, tl, rfl, ⟨post, by simp [hv], hpost⟩, ?_⟩
+      intro t ht
+      obtain ⟨pre, post', hv', hpre, hpost'⟩ := htl t ht
+      exact ⟨b :: pre, post', by simp [hv'], getLast?_cons_of_some _ _ _ hpre, hpost'⟩
+
+theorem elements_decomp (v t : Bytes) (h : t ∈ elements v) :
+    ∃ pre post, v = pre ++ t ++ post ∧ (pre = [] ∨ pre.getLast? = some comma) ∧
+      (post = [] ∨ post.head? = some comma) := by
+  obtain ⟨hd, tl, hel, ⟨post, hv, hpost⟩, htl⟩ := elements_struct v
+  rw [hel] at h
+  rcases List.mem_cons.mp h with rfl | h'
+  · exact ⟨[], post, by simp [hv], Or.inl rfl, hpost⟩
+  · obtain ⟨pre, post', hv', hpre, hpost'⟩ := htl t h'
+    exact ⟨pre, post', hv', Or.inr hpre, hpost'⟩
+
+theorem strip_decomp (t : Bytes) :
+    ∃ l r, t = l ++ strip t ++ r ∧ l.all isOWS = true ∧ r.all isOWS = true := by
+  refine ⟨t.takeWhile isOWS, (((t.dropWhile isOWS).reverse).takeWhile isOWS).reverse, ?_, ?_, ?_⟩
+  · unfold strip
+    rw [List.append_assoc, ← List.reverse_append, List.takeWhile_append_dropWhile,
+      List.reverse_reverse, List.takeWhile_append_dropWhile]
+  · simp only [List.all_eq_true]
+    intro b hb
+    exact all_takeWhile _ _ b hb
+  · simp only [List.all_eq_true, List.mem_reverse]
+    intro b hb
+    exact all_takeWhile _ _ b hb
+
+theorem offers_of_offersB (v : Bytes) (e : Enc) (h : offersB v e = true) : Offers v e := by
+  unfold offersB tokens at h
+  simp only [List.contains_eq_mem, List.mem_map, decide_eq_true_eq] at h
+  obtain ⟨t, ht, hst⟩ := h
+  obtain ⟨pre, post, hv, hpre, hpost⟩ := elements_decomp v t ht
+  obtain ⟨l, r, htl, hl, hr⟩ := strip_decomp t
+  rw [hst] at htl
+  exact ⟨pre, l, r, post, by rw [hv, htl], hl, hr, hpre, hpost⟩
+
+theorem elements_no_comma (a : Bytes) (h : comma ∉ a) : elements a = [a] := by
+  induction a with
+  | nil => rfl
+  | cons b a ih =>
+    have hb : (b == comma) = false := by
+      simp only [beq_eq_false_iff_ne, ne_eq]; intro hc; exact h (by simp [hc])
+    have := ih (fun hm => h (List.mem_cons_of_mem _ hm))
+    rw [elements_cons, hb, this]; rfl
+
+theorem elements_split (a rest : Bytes) (h : comma ∉ a) :
+    elements (a ++ comma :: rest) = a :: elements rest := by
+  induction a with
+  | nil => simp [elements_cons]
+  | cons b a ih =>
+    have hb : (b == comma) = false := by
+      simp only [beq_eq_false_iff_ne, ne_eq]; intro hc; exact h (by simp [hc])
+    have := ih (fun hm => h (List.mem_cons_of_mem _ hm))
+    rw [List.cons_append, elements_cons, hb, this]; rfl
+
+theorem elements_suffix (p rest : Bytes) :
+    ∃ f0 front, elements (p ++ comma :: rest) = f0 :: front ++ elements rest := by
+  induction p with
+  | nil => exact ⟨[], [], by simp [elements_cons]⟩
+  | cons b p ih =>
+    obtain ⟨f0, front, h⟩ := ih
+    rw [List.cons_append, elements_cons, h]
+    by_cases hb : (b == comma) = true
+    · exact ⟨[], f0 :: front, by simp [hb]⟩
+    · exact ⟨b :: f0, front, by simp [hb]⟩
+
+theorem elements_mem (pre t post : Bytes) (ht : comma ∉ t)
+    (hpre : pre = [] ∨ pre.getLast? = some comma) (hpost : post = [] ∨ post.head? = some comma) :
+    t ∈ elements (pre ++ t ++ post) := by
+  have h1 : t ∈ elements (t ++ post) := by
+    rcases hpost with rfl | hp
+    · simp [elements_no_comma t ht]
+    · cases post with
+      | nil => simp at hp
+      | cons c q =>
+        simp only [List.head?_cons, Option.some.injEq] at hp
+        subst hp
+        simp [elements_split t q ht]
+  rcases hpre with rfl | hp
+  · simpa using h1
+  · obtain ⟨p, rfl⟩ := List.getLast?_eq_some_iff.mp hp
+    obtain ⟨f0, front, h⟩ := elements_suffix p (t ++ post)
+    have : p ++ [comma] ++ t ++ post = p ++ comma :: (t ++ post) := by simp
+    rw [this, h]
+    exact List.mem_append_right _ h1
+
+theorem dropWhile_append_all {α} (p : α → Bool) (l n : List α) (h : l.all p = true) :
+    (l ++ n).dropWhile p = n.dropWhile p := by
+  induction l with
+  | nil => rfl
+  | cons a l ih =>
+    simp only [List.all_cons, Bool.and_eq_true] at h
+    simp [h.1, ih h.2]
+
+theorem strip_pad (l n r : Bytes) (hl : l.all isOWS = true) (hr : r.all isOWS = true)
+    (h1 : ∀ x : Bytes, (n ++ x).dropWhile isOWS = n ++ x)
+    (h2 : ∀ x : Bytes, (n.reverse ++ x).dropWhile isOWS = n.reverse ++ x) :
+    strip (l ++ n ++ r) = n := by
+  unfold strip
+  rw [List.append_assoc, dropWhile_append_all _ _ _ hl, h1, List.reverse_append,
+    dropWhile_append_all _ _ _ (by simpa using hr)]
+  have := h2 []
+  simp only [List.append_nil] at this
+  rw [this, List.reverse_reverse]
+
+theorem name_no_comma (e : Enc) : comma ∉ name e := by cases e <;> decide
+
+theorem name_head (e : Enc) (x : Bytes) : (name e ++ x).dropWhile isOWS = name e ++ x := by
+  cases e <;> rfl
+
+theorem name_last (e : Enc) (x : Bytes) :
+    ((name e).reverse ++ x).dropWhile isOWS = (name e).reverse ++ x := by
+  cases e <;> rfl
+
+theorem ows_ne_comma (l : Bytes) (h : l.all isOWS = true) : comma ∉ l := by
+  intro hm
+  have := List.all_eq_true.mp h _ hm
+  revert this
+  decide
+
+theorem offersB_of_offers (v : Bytes) (e : Enc) (h : Offers v e) : offersB v e = true := by
+  obtain ⟨pre, l, r, post, rfl, hl, hr, hpre, hpost⟩ := h
+  unfold offersB tokens
+  simp only [List.contains_eq_mem, List.mem_map, decide_eq_true_eq]
+  refine ⟨l ++ name e ++ r, elements_mem _ _ _ ?_ hpre hpost, strip_pad _ _ _ hl hr (name_head e) (name_last e)⟩
+  simp only [List.mem_append, not_or]
+  exact ⟨⟨ows_ne_comma l hl, name_no_comma e⟩, ows_ne_comma r hr⟩
+
+theorem offersB_iff (v : Bytes) (e : Enc) : offersB v e = true ↔ Offers v e :=
+  ⟨offers_of_offersB v e, offersB_of_offers v e⟩
+
 end Compression
